@@ -598,9 +598,64 @@ def eval_long(case):
     return res
 
 
+_LATE_COUNTER = [0]
+
+
+def eval_latecls(case):
+    """classes defined by the user after the library (and after earlier queries): an object of a class that is defined
+    `parent`-below one of the library's classes only after queries with include_subclasses have already been made is
+    found by every later query on every base class of it, exactly once"""
+    import partitura.score as S
+
+    res = CaseResult(states=1, transitions=0, traces=1)
+    parent = getattr(S, case["parent"])
+    bases = [getattr(S, b) for b in case["bases"]]
+    ctx = "late class below %s, bases %s, queried before=%s, levels=%d" % (case["parent"], case["bases"], case["before"], case["levels"])
+    part = S.Part("P1")
+    first = S.Note("C", 4, id="n0") if issubclass(parent, S.GenericNote) else S.Rest(id="r0")
+    part.add(first, 0, 2)
+    try:
+        if case["before"]:
+            for b in bases:
+                list(part.iter_all(b, include_subclasses=True))
+                res.transitions += 1
+        cls = parent
+        for _ in range(case["levels"]):
+            _LATE_COUNTER[0] += 1
+            cls = type("Late%s%d" % (case["parent"], _LATE_COUNTER[0]), (cls,), {})
+        if issubclass(parent, S.GraceNote):
+            obj = cls("grace", "D", 4, id="late")
+        elif issubclass(parent, S.GenericNote) and parent is not S.Rest:
+            obj = cls("D", 4, id="late")
+        else:
+            obj = cls(id="late")
+        part.add(obj, 1, 3)
+        for b in bases:
+            got = [o for o in part.iter_all(b, include_subclasses=True)]
+            res.transitions += 1
+            if sum(1 for o in got if o is obj) != 1:
+                res.fail("iter_all-subclasses", expected="the object of the late class once", observed=[type(o).__name__ for o in got],
+                         where="Part.iter_all[include_subclasses]", detail=ctx + " base=%s" % b.__name__)
+            nxt = [o for o in part._points[0].iter_next(b, eq=True, include_subclasses=True)]
+            if sum(1 for o in nxt if o is obj) != 1:
+                res.fail("iter_next-subclasses", expected="the object of the late class once", observed=[type(o).__name__ for o in nxt],
+                         where="TimePoint.iter_next[include_subclasses]", detail=ctx + " base=%s" % b.__name__)
+            exact = [o for o in part.iter_all(b)]
+            if any(o is obj for o in exact) and b is not cls:
+                res.fail("iter_all-exact-class", expected="not listed without include_subclasses", observed=[type(o).__name__ for o in exact],
+                         where="Part.iter_all", detail=ctx + " base=%s" % b.__name__)
+    except Exception as ex:  # noqa
+        res.fail("operation-total", kind="exception", where=innermost_partitura_frame(ex), observed=exc_text(ex), detail=ctx)
+    res.outcome = "late:%s:%d" % (case["parent"], case["levels"])
+    res.nontrivial = True
+    return res
+
+
 def eval_case(case):
     if case.get("k") == "long":
         return eval_long(case)
+    if case.get("k") == "latecls":
+        return eval_latecls(case)
     pool = case["pool"]
     hist = case["hist"]
     T = list(range(case["T"]))
@@ -661,7 +716,15 @@ def spaces(tier, seed):
 
     Ns = [1, 2, 30, 1100] if tier == "quick" else [1, 2, 30, 300, 1100, 2600]
     longs = [dict(k="long", N=N, step=st, gap=g, base=b) for N in Ns for (st, g) in ((1, 0), (2, 1), (480, 0)) for b in (0, 2 ** 31 + 1)]
-    return [Space("long-timeline", longs, True,
+    chains = {"Note": ["Note", "GenericNote", "TimedObject"], "GraceNote": ["GraceNote", "Note", "GenericNote", "TimedObject"],
+              "Rest": ["Rest", "GenericNote", "TimedObject"]}
+    late = [dict(k="latecls", parent=par, bases=bs, before=bf, levels=lv)
+            for par, ch in chains.items() for n in range(1, len(ch) + 1) for bs in [ch[:n], ch[n - 1:n]] for bf in (0, 1) for lv in (1, 2)]
+    return [Space("late-defined-subclasses", late, True,
+                  "a class defined 1-2 levels below Note / GraceNote / Rest after the library was imported, with and without "
+                  "earlier include_subclasses queries on the base classes: its object is found once by iter_all / iter_next "
+                  "with include_subclasses on every base class, and not without"),
+            Space("long-timeline", longs, True,
                         "N=%s notes in a row x (length, gap) in {(1,0),(2,1),(480,0)} x first onset {0, 2^31+1}: points, links, "
                         "iter_all / iter_next / iter_prev over the whole timeline and a window, after adding, after removing every "
                         "other note and after removing everything" % Ns)]
